@@ -1055,7 +1055,9 @@ fn probe() -> i32 {
     chk("yescrypt hash field truncated to 2 chars, right password", cp(&y[..y.rfind('$').unwrap() + 3], "a"), "false");
     chk("yescrypt hash field truncated to 42 chars, right password", cp(&y[..y.len() - 1], "a"), "false");
     chk("yescrypt no hash field at all", cp("$y$j9T$LdJMENpBABJJ3hIHjB1Bi.", "a"), "false");
-    chk("sha256-crypt undecodable hash field", cp("$5$rounds=1000$saltsalt$***", "a"), "panic");
+    // fixed by /repo 054a9cd (was: panic in sha-crypt 0.5.0 decode_sha256().unwrap())
+    chk("sha256-crypt undecodable hash field", cp("$5$rounds=1000$saltsalt$***", "a"), "false");
+    chk("sha256-crypt 42-character hash field", cp("$5$rounds=1000$saltsalt$WPtYduzN/uAN5rJJyICTeVv322EyddSk2leosnK95U", "a"), "false");
     chk("sha512-crypt undecodable hash field", cp("$6$rounds=1000$saltsalt$***", "a"), "false");
     chk("sha256-crypt empty hash field", cp("$5$rounds=1000$saltsalt$", "a"), "false");
     chk("locked valid hash", cp(&format!("!{}", y), "a"), "false");
